@@ -93,6 +93,14 @@ def harness(c: sym.Ctx, case: Dict[str, Any]) -> None:
         c.cover("wtt_elapsed")
         c.check(wtt is not None and elapsed >= wtt - 1e-9, "returns_with_running_tasks_only_after_wait_tasks_timeout",
                 unfinished=unfinished, wtt=wtt, elapsed=elapsed)
+    # --- 3a. ... and it returns promptly once shutdown was requested and everything it took has finished (or the timeout elapsed):
+    # the unchanged worker notices the request within one 0.3 s poll; "promptly" is read as "within one second" (virtual time)
+    if r.stop_at is not None and "t_stop" in r.info and "t_end" in r.info:
+        ends = [t for e, t in zip(ev, r.lab.ev_t) if e[0] in ("cb_end", "ack")]
+        settled = r.info["t_stop"] + wtt if unfinished and wtt is not None else max([r.info["t_stop"]] + ends)
+        delay = r.info["t_end"] - settled
+        c.check(delay <= 1.0 + 1e-9, "returns_promptly_once_drained", delay=round(delay, 3), t_stop=r.info["t_stop"], settled=round(settled, 3),
+                t_end=r.info["t_end"], unfinished=unfinished)
     # --- 3b. ... including its acknowledgement
     if not unfinished:
         unacked = [i for i in taken if kinds[i] == "valid" and not any(e[0] == "ack" and e[1] == i for e in ev)]
